@@ -657,6 +657,14 @@ class NetSim:
     def _obs(self):
         o = Obs()
         o.plan = self.plan
+        # Nothing that happens after the end of the run is an observation: the harness then cancels the client's tasks,
+        # which no user does, and a client may well react to that (a notification from a `finally`, a last attempt).
+        n_end = next((e[0] for e in self.trace if e[3] == "sim" and e[4] == "end"), None)
+        if n_end is not None:
+            self.trace = [e for e in self.trace if e[0] <= n_end]
+            self.status = [x for x in self.status if x[0] < n_end]
+            self.recv = [x for x in self.recv if x[0] < n_end]
+            self.attempts = [a for a in self.attempts if a["ev"] < n_end]
         o.trace = self.trace
         o.status = self.status
         o.recv = self.recv
